@@ -279,6 +279,10 @@ func (p *parser) parseObjectProperty() ast.Property {
 		idx := p.idx
 		_, value = p.parseObjectPropertyKey()
 		parameterList := p.parseFunctionParameterList()
+		if len(parameterList.List) > 0 {
+			// 11.1.5: get PropertyName ( ) { FunctionBody }
+			p.error(parameterList.List[0].Idx, "Getter must not have any formal parameters")
+		}
 
 		node := &ast.FunctionLiteral{
 			Function:      idx,
@@ -294,6 +298,10 @@ func (p *parser) parseObjectProperty() ast.Property {
 		idx := p.idx
 		_, value = p.parseObjectPropertyKey()
 		parameterList := p.parseFunctionParameterList()
+		if len(parameterList.List) > 1 {
+			// 11.1.5: set PropertyName ( PropertySetParameterList ) { FunctionBody }
+			p.error(parameterList.List[1].Idx, "Setter must have exactly one formal parameter")
+		}
 
 		node := &ast.FunctionLiteral{
 			Function:      idx,
